@@ -44,11 +44,11 @@ def make_cyclic(rng, j):
     return with_users(j)
 
 
-def has_reachable_cycle(j):
+def has_reachable_cycle(j, roots=None):
     ops = {g[0]: g[2] for g in j['gates']}
     WHITE, GREY, BLACK = 0, 1, 2
     col = {l: WHITE for l in ops}
-    for o in j['outputs']:
+    for o in (j['outputs'] if roots is None else roots):
         if col[o] != WHITE:
             continue
         st = [(o, iter(ops[o]))]
@@ -85,6 +85,10 @@ def gen_reqs(ctx, rng, j, info, cyclic):
     for inv in (False, True):
         reqs.append({'op': 'top_sort', 'c': j, 'inverse': inv})
     reqs.append({'op': 'cycle_check', 'c': j})
+    if labels:
+        # the optional start set: all gates, and a random selection
+        reqs.append({'op': 'cycle_check', 'c': j, 'start': list(labels)})
+        reqs.append({'op': 'cycle_check', 'c': j, 'start': [rng.choice(labels) for _ in range(rng.randint(1, 4))]})
     for bfs in (False, True):
         for inv in (False, True):
             starts = [None]
@@ -195,6 +199,12 @@ def check_one(ctx, rng, j, cyclic):
     if r != {'ok': exp}:
         ctx.violation('cycle_check.wrong', f'check_circuit_has_no_cycles: raises={r} but reachable cycle={exp}',
                       input={'c': j})
+    for roots in ([list(labels)] + [[rng.choice(labels) for _ in range(rng.randint(1, 4))] for _ in range(2)] if labels else []):
+        r = py_exec({'op': 'cycle_check', 'c': j, 'start': roots})
+        exp = has_reachable_cycle(j, roots)
+        if r != {'ok': exp}:
+            ctx.violation('cycle_check.wrong', f'check_circuit_has_no_cycles(start_gates={roots}): raises={r} but a cycle is reachable from them={exp}',
+                          input={'c': j, 'start': roots})
     if cyclic:
         return
     for inv in (False, True):
